@@ -142,14 +142,15 @@ pub open spec fn make_gray_again_rel(pre: S, post: S, p: GcPtr) -> bool {
 // ==================================================================================================
 // barriers.  The single-sourced adoption predicates (also compiled for the Kani harnesses):
 //   after the barrier the parent may adopt the child without breaking the tri-colour invariant
+//   (an object whose type needs no tracing holds no pointers - A-collect - so nothing is asked for it)
 pub open spec fn can_adopt(s: S, p: GcPtr, c: GcPtr) -> bool {
-    s.phase != Phase::Mark || s.objs[p].color != GcColor::Black || is_marked(s.objs[c].color)
+    s.phase != Phase::Mark || s.objs[p].color != GcColor::Black || !s.objs[p].needs_trace || is_marked(s.objs[c].color)
 }
 pub open spec fn can_adopt_weak(s: S, p: GcPtr, c: GcPtr) -> bool {
-    s.phase != Phase::Mark || s.objs[p].color != GcColor::Black || s.objs[c].color != GcColor::White
+    s.phase != Phase::Mark || s.objs[p].color != GcColor::Black || !s.objs[p].needs_trace || s.objs[c].color != GcColor::White
 }
 /// general forms: parent may adopt anything / child may be adopted by anything
-pub open spec fn can_adopt_any(s: S, p: GcPtr) -> bool { s.phase != Phase::Mark || s.objs[p].color != GcColor::Black }
+pub open spec fn can_adopt_any(s: S, p: GcPtr) -> bool { s.phase != Phase::Mark || s.objs[p].color != GcColor::Black || !s.objs[p].needs_trace }
 pub open spec fn adoptable_by_any(s: S, c: GcPtr) -> bool { s.phase != Phase::Mark || is_marked(s.objs[c].color) }
 pub open spec fn adoptable_by_any_weak(s: S, c: GcPtr) -> bool { s.phase != Phase::Mark || s.objs[c].color != GcColor::White }
 
@@ -160,8 +161,8 @@ pub open spec fn barrier_frame(pre: S, post: S) -> bool {
 }
 pub open spec fn backward_barrier_pre(s: S, parent: GcPtr, child: Option<GcPtr>) -> bool {
     &&& isobj(s, parent) && (child matches Some(c) ==> isobj(s, c))
-    // the only way the parent can be Black is to have been traced, which earned the credit that is taken back
-    &&& (s.phase == Phase::Mark && s.objs[parent].color == GcColor::Black ==> s.m.traced >= 1)
+    // a Black object that needs tracing has been traced, which earned the credit that a re-queue takes back (from I-count)
+    &&& (s.phase == Phase::Mark && s.objs[parent].color == GcColor::Black && s.objs[parent].needs_trace ==> s.m.traced >= 1)
 }
 pub open spec fn backward_barrier_rel(pre: S, post: S, parent: GcPtr, child: Option<GcPtr>) -> bool {
     // either nothing happened or the parent was re-queued (make_gray_again)
